@@ -53,6 +53,10 @@ ASSUMPTIONS = [
     'real leg: only attribution-phase errors are injected, because javac skips flow analysis (missing return...) '
     'for the whole batch once any file has an error, so a file compiled alone would not be a valid reference',
     'tempfile.mkdtemp() under /tmp (names tmp[a-z0-9_]{8}) as in hephaestus._run',
+    'real leg reference: each file is compiled in a compilation of its own through javax.tools (same flags, same '
+    'messages as the javac command line, one JVM per batch; falls back to one javac process per file), read by '
+    'vlib.jd; if javac itself prints other errors for the batch than for the single files the batch text as read '
+    'by vlib.jd is the reference and the batch is counted in real_batches_where_alone_and_batch_differ',
 ]
 MIN_NONTRIVIAL = {'quick': 400, 'thorough': 8000}
 COMPILERS = ['java', 'kotlin', 'groovy', 'scala']
@@ -295,7 +299,8 @@ KOTLIN_FRAMES = ['\tat org.jetbrains.kotlin.backend.common.CodegenUtil.reportBac
 
 
 def kotlin_crash(c, path):
-    fr = [c.pick(KOTLIN_FRAMES) for _ in range(c.n(2, 10))]
+    # every kotlinc trace ends in the compiler's own entry points
+    fr = [c.pick(KOTLIN_FRAMES) for _ in range(c.n(2, 10))] + KOTLIN_FRAMES[2:]
     k = c.n(0, 2)
     if k == 0:
         return ['exception: org.jetbrains.kotlin.backend.common.BackendException: Backend Internal error: '
